@@ -1324,6 +1324,9 @@ def r_ordering(ctx) -> RuleResult:
 
 
 def _check_parser_validation(ctx, res: RuleResult):
+    """TUCAN parser: every index parsed from the string is checked against the atoms of the formula before it is used as a
+    subscript and before the graph is built.  The listener's to_graph is flattened (calls of its own methods that are
+    statements are replaced by the callee's statements) and read in execution order."""
     repo = ctx.repo
     par = repo.module("tucan.parser.parser")
     lis = None
@@ -1335,74 +1338,184 @@ def _check_parser_validation(ctx, res: RuleResult):
     tg = repo.mro_method(lis, "to_graph")
     if tg is None:
         raise AnalysisError("listener.to_graph vanished")
-    fn = tg.node
-    cfg = cfg_of(fn)
-    # validators: methods that raise when index >= len(atoms)
+    # ---- listener fields that hold parsed indices: self.F.append((int(..) - 1, ..)) / self.F.setdefault(int(..) - 1, ..) / self.F[k] = ..
+    fields: dict[str, str] = {}
+
+    def parsed_number(e, f) -> bool:
+        if any(isinstance(x, ast.Call) and isinstance(x.func, ast.Name) and x.func.id == "int" for x in ast.walk(e)):
+            return True
+        # a name bound from int(...) or a parameter fed with one
+        for x in ast.walk(e):
+            if isinstance(x, ast.Name):
+                for d in assigned_names(f.node).get(x.id, []):
+                    v = getattr(d, "value", None)
+                    if v is not None and any(isinstance(y, ast.Call) and isinstance(y.func, ast.Name) and y.func.id == "int" for y in ast.walk(v)):
+                        return True
+                if x.id in params_of(f.node)[1:]:
+                    for cs in ctx.cg.callers_of(f.fq):
+                        k = params_of(f.node).index(x.id) - 1
+                        if k < len(cs.node.args) and any(isinstance(y, ast.Call) and isinstance(y.func, ast.Name) and y.func.id == "int" for y in ast.walk(cs.node.args[k])):
+                            return True
+                        if k < len(cs.node.args) and isinstance(cs.node.args[k], ast.Name):
+                            for d in assigned_names(cs.caller.node).get(cs.node.args[k].id, []):
+                                v = getattr(d, "value", None)
+                                if v is not None and any(isinstance(y, ast.Call) and isinstance(y.func, ast.Name) and y.func.id == "int" for y in ast.walk(v)):
+                                    return True
+        return False
+    for m in lis.methods.values():
+        for n in own_walk(m.node):
+            if isinstance(n, ast.Call) and isinstance(n.func, ast.Attribute) and n.func.attr in ("append", "add", "setdefault", "extend") \
+                    and isinstance(n.func.value, ast.Attribute) and isinstance(n.func.value.value, ast.Name) and n.func.value.value.id == "self" and n.args:
+                a0 = n.args[0]
+                if isinstance(a0, ast.Tuple) and len(a0.elts) == 2 and all(parsed_number(x, m) for x in a0.elts):
+                    fields[n.func.value.attr] = "pairs"
+                elif n.func.attr == "setdefault" and parsed_number(a0, m):
+                    fields[n.func.value.attr] = "keys"
+            if isinstance(n, ast.Assign) and isinstance(n.targets[0], ast.Subscript) and isinstance(n.targets[0].value, ast.Attribute) \
+                    and isinstance(n.targets[0].value.value, ast.Name) and n.targets[0].value.value.id == "self" and parsed_number(n.targets[0].slice, m):
+                fields.setdefault(n.targets[0].value.attr, "keys")
+    if "pairs" not in fields.values() or "keys" not in fields.values():
+        raise AnalysisError(f"R-ORDERING: cannot find the listener fields that hold parsed bond endpoints and attribute indices (found {fields})")
+    # ---- validators: methods (self, index) that raise exactly when index >= number of atoms
+    from ..concrete import run_outcome
     validators = {}
     for name, m in lis.methods.items():
         ps = params_of(m.node)
-        if len(ps) != 2:
+        if len(ps) != 2 or not any(isinstance(z, ast.Raise) for z in own_walk(m.node)):
             continue
-        idx = ps[1]
-        for y in own_walk(m.node):
-            if isinstance(y, ast.If) and any(isinstance(z, ast.Raise) for z in y.body):
-                try:
-                    stubs = {}
-                    for z in ast.walk(y.test):
-                        if isinstance(z, ast.Call) and isinstance(z.func, ast.Name) and z.func.id == "len":
-                            stubs[norm(z)] = 3
-                    vals = {i: bool(ceval(y.test, {idx: i}, stubs)) for i in (0, 2, 3, 4)}
-                except Exception:
-                    continue
-                good = (not vals[0]) and (not vals[2]) and vals[3] and vals[4]
-                validators[name] = (m, good, y)
+        stubs = {norm(z): 3 for z in ast.walk(m.node) if isinstance(z, ast.Call) and isinstance(z.func, ast.Name) and z.func.id == "len"}
+        if not stubs:
+            continue
+        try:
+            vals = {i: run_outcome(m.node.body, {ps[1]: i}, stubs) == "raise" for i in (0, 2, 3, 4)}
+        except Exception:
+            continue
+        good = (not vals[0]) and (not vals[2]) and vals[3] and vals[4]
+        validators[name] = (m, good)
     if not validators:
         res.inst(tg.fq, "an index validator exists", "fail")
-        res.fail(Finding("R-ORDERING", tg.module.rel, tg.qualname, "index validation", "the parser has no check that an index refers to an existing atom", line=fn.lineno))
+        res.fail(Finding("R-ORDERING", tg.module.rel, tg.qualname, "index validation", "the parser has no check that an index refers to an existing atom", line=tg.node.lineno))
         return
-    for name, (m, good, y) in validators.items():
-        res.inst(m.fq, f"raises exactly when index >= number of atoms: `{short(y.test)}`", "ok" if good else "fail")
+    for name, (m, good) in validators.items():
+        res.inst(m.fq, "raises exactly when index >= number of atoms", "ok" if good else "fail")
         if not good:
-            res.fail(Finding("R-ORDERING", m.module.rel, m.qualname, norm(y.test), "index validator does not reject exactly the indices >= number of atoms", line=y.lineno))
+            res.fail(Finding("R-ORDERING", m.module.rel, m.qualname, f"validator {name}", "index validator does not reject exactly the indices >= number of atoms", line=m.node.lineno))
 
-    def is_validation(call: ast.Call, var: str) -> bool:
-        return isinstance(call.func, ast.Attribute) and call.func.attr in validators and call.args and isinstance(call.args[0], ast.Name) and call.args[0].id == var
-    # subscripts by a loop variable over self._node_attributes
-    for lp in [n for n in own_walk(fn) if isinstance(n, ast.For)]:
-        tvars = [x.id for x in ast.walk(lp.target) if isinstance(x, ast.Name)]
-        src = norm(lp.iter)
-        if "_node_attributes" in src:
-            idx = tvars[0]
-            subs = [x for x in ast.walk(lp) if isinstance(x, ast.Subscript) and isinstance(x.slice, ast.Name) and x.slice.id == idx]
-            for s in subs:
-                sn = cfg.stmt_node_containing(s)
-                vs = [cfg.stmt_node_containing(c) for c in ast.walk(lp) if isinstance(c, ast.Call) and is_validation(c, idx)]
-                ok = any(v is not None and v != sn and cfg.dominates(v, sn) for v in vs)
-                res.inst(tg.fq, f"`{short(s)}` dominated by validation of {idx}", "ok" if ok else "fail")
-                if not ok:
-                    res.fail(Finding("R-ORDERING", tg.module.rel, tg.qualname, norm(s), "attribute index is used as a subscript without a dominating existence check: IndexError / KeyError instead of the parser's exception", line=s.lineno))
-    # bonds: both endpoints validated in a loop over self._bonds that dominates the graph construction
-    build = [x for x in own_walk(fn) if isinstance(x, ast.Call) and ctx.cg.resolve_call(tg, x, ctx.cg.local_types(tg), set(params_of(fn))).kind == "tucan"
-             and ctx.cg.resolve_call(tg, x, ctx.cg.local_types(tg), set(params_of(fn))).target.name == "graph_from_molecule"]
-    if not build:
+    def validated_arg(call) -> Optional[ast.expr]:
+        if isinstance(call, ast.Call) and isinstance(call.func, ast.Attribute) and call.func.attr in validators and call.args:
+            return call.args[0]
+        return None
+    # ---- flatten to_graph
+    flat = []       # (stmt, owner FuncInfo, conditional?)
+
+    def flatten(f, stmts, cond, depth):
+        for st in stmts:
+            call = None
+            if isinstance(st, ast.Expr) and isinstance(st.value, ast.Call):
+                call = st.value
+            elif isinstance(st, (ast.Assign, ast.AnnAssign, ast.Return)) and isinstance(getattr(st, "value", None), ast.Call):
+                call = st.value
+            inlined = False
+            if call is not None and isinstance(call.func, ast.Attribute) and isinstance(call.func.value, ast.Name) and call.func.value.id == "self" \
+                    and call.func.attr not in validators and depth < 3:
+                tgt = repo.mro_method(lis, call.func.attr)
+                if tgt is not None:
+                    flatten(tgt, tgt.node.body, cond, depth + 1)
+                    inlined = True
+            if isinstance(st, (ast.If, ast.Try, ast.With, ast.While)) and not inlined:
+                flat.append((st, f, cond))
+                continue
+            if not (inlined and isinstance(st, ast.Expr)):
+                flat.append((st, f, cond))
+    flatten(tg, tg.node.body, False, 0)
+
+    def field_of(e) -> Optional[str]:
+        for x in ast.walk(e):
+            if isinstance(x, ast.Attribute) and isinstance(x.value, ast.Name) and x.value.id == "self" and x.attr in fields:
+                return x.attr
+        return None
+    validated: dict[str, int] = {}          # field -> position in flat where all its indices are known to be checked
+    problems = []
+    build_pos = None
+    n_sub = 0
+    for pos, (st, f, cond) in enumerate(flat):
+        if any(isinstance(x, ast.Call) and ctx.cg.resolve_call(f, x, ctx.cg.local_types(f), set(params_of(f.node))).kind == "tucan"
+               and ctx.cg.resolve_call(f, x, ctx.cg.local_types(f), set(params_of(f.node))).target.name == "graph_from_molecule" for x in ast.walk(st)):
+            if build_pos is None:
+                build_pos = pos
+        if not isinstance(st, ast.For):
+            continue
+        F = field_of(st.iter)
+        if F is None:
+            continue
+        kind = fields[F]
+        flattened_iter = any(isinstance(x, ast.Call) and norm(x.func).split(".")[-1] in ("from_iterable", "chain") for x in ast.walk(st.iter))
+        tvars = [x.id for x in ast.walk(st.target) if isinstance(x, ast.Name)]
+        top_calls = [s_.value for s_ in st.body if isinstance(s_, ast.Expr) and isinstance(s_.value, ast.Call)]
+        vargs = [validated_arg(c) for c in top_calls]
+        vargs = [a for a in vargs if a is not None]
+        nested = [s_ for s_ in st.body if isinstance(s_, ast.For)]
+        complete = None
+        if kind == "pairs":
+            if flattened_iter and isinstance(st.target, ast.Name):
+                complete = any(isinstance(a, ast.Name) and a.id == st.target.id for a in vargs)
+            elif isinstance(st.target, (ast.Tuple, ast.List)) and len(tvars) == 2:
+                complete = {a.id for a in vargs if isinstance(a, ast.Name)} >= set(tvars)
+            elif isinstance(st.target, ast.Name):
+                subs = {try_const(ctx, f, a.slice) for a in vargs if isinstance(a, ast.Subscript) and isinstance(a.value, ast.Name) and a.value.id == st.target.id}
+                if subs >= {0, 1}:
+                    complete = True
+                elif any(isinstance(n_.iter, ast.Name) and n_.iter.id == st.target.id and isinstance(n_.target, ast.Name) and
+                         any(isinstance(a2, ast.Name) and a2.id == n_.target.id for a2 in [validated_arg(s2.value) for s2 in n_.body if isinstance(s2, ast.Expr)] if a2 is not None)
+                         for n_ in nested):
+                    complete = True
+                elif vargs or nested:
+                    complete = False
+        else:
+            idx = tvars[0] if tvars else None
+            if idx is not None:
+                complete = any(isinstance(a, ast.Name) and a.id == idx for a in vargs)
+                # subscripts by the index inside the loop must come after its validation
+                first_val = next((i_ for i_, s_ in enumerate(st.body) if isinstance(s_, ast.Expr) and isinstance(validated_arg(s_.value), ast.Name)
+                                  and validated_arg(s_.value).id == idx), None)
+                for i_, s_ in enumerate(st.body):
+                    for x in ast.walk(s_):
+                        if isinstance(x, ast.Subscript) and isinstance(x.slice, ast.Name) and x.slice.id == idx:
+                            n_sub += 1
+                            ok = (first_val is not None and first_val < i_) or F in validated
+                            res.inst(f.fq, f"`{short(x)}` comes after the validation of {idx}", "ok" if ok else "fail")
+                            if not ok:
+                                problems.append((f, x, "attribute index is used as a subscript without a preceding existence check: IndexError / KeyError instead of the parser's exception"))
+        has_validator_call = any(validated_arg(x) is not None for x in ast.walk(st) if isinstance(x, ast.Call))
+        if complete is True:
+            if cond:
+                raise AnalysisError(f"R-ORDERING: the validation of {F} in {f.qualname} runs under a condition this rule does not evaluate")
+            validated.setdefault(F, pos)
+        elif complete is False and has_validator_call:
+            res.inst(f.fq, f"loop over {F} validates every index it holds", "fail")
+            problems.append((f, st, f"the loop over {F} does not validate every index it holds"))
+        elif has_validator_call:
+            raise AnalysisError(f"R-ORDERING: loop over {F} in {f.qualname} calls a validator in a form this rule does not read")
+    if build_pos is None:
         raise AnalysisError("to_graph no longer calls graph_from_molecule")
-    val_loops = []
-    for lp in [n for n in own_walk(fn) if isinstance(n, ast.For)]:
-        if "_bonds" in norm(lp.iter):
-            tvars = [x.id for x in ast.walk(lp.target) if isinstance(x, ast.Name)]
-            validated = {v for v in tvars if any(isinstance(c, ast.Call) and is_validation(c, v) and c in [s.value for s in lp.body if isinstance(s, ast.Expr)] for c in ast.walk(lp))}
-            if len(tvars) == 2 and validated == set(tvars) and cfg.node_of(lp) is not None:
-                val_loops.append(cfg.node_of(lp))
-    attr_loops = [cfg.node_of(lp) for lp in own_walk(fn) if isinstance(lp, ast.For) and "_node_attributes" in norm(lp.iter)
-                  and any(isinstance(c, ast.Call) and isinstance(c.func, ast.Attribute) and c.func.attr in validators for c in ast.walk(lp))]
-    exits = [n for n in own_walk(fn) if isinstance(n, ast.Return)] + [b for b in build if not any(b in ast.walk(r) for r in own_walk(fn) if isinstance(r, ast.Return))]
-    for ex in exits:
-        en = cfg.stmt_node_containing(ex) if not isinstance(ex, ast.stmt) else cfg.node_of(ex)
-        ok = any(cfg.dominates(v, en) for v in val_loops) and any(a is not None and cfg.dominates(a, en) for a in attr_loops)
-        res.inst(tg.fq, f"`{short(ex, 60)}`: all bond endpoints and attribute indices validated on every path to it", "ok" if ok else "fail")
-        if not ok:
-            res.fail(Finding("R-ORDERING", tg.module.rel, tg.qualname, norm(ex), "a graph can be returned without the bond endpoints / attribute indices having been checked against the atoms of the formula: "
-                             "a string with a dangling index is accepted (or silently altered) instead of being rejected", line=ex.lineno))
+    for F, kind in fields.items():
+        if F in validated:
+            ok = validated[F] < build_pos
+            res.inst(tg.fq, f"all indices in {F} validated before the graph is built", "ok" if ok else "fail")
+            if not ok:
+                problems.append((tg, flat[build_pos][0], f"the graph is built before the indices in {F} were checked against the atoms of the formula"))
+        else:
+            # is it validated in some other form anywhere in to_graph's flattening?
+            other = any(validated_arg(x) is not None for st, f, c in flat for x in ast.walk(st) if isinstance(x, ast.Call)) and \
+                not any(isinstance(st, ast.For) and field_of(st.iter) == F for st, f, c in flat)
+            if other and not any(p for p in problems):
+                raise AnalysisError(f"R-ORDERING: cannot see a loop over {F} that validates its indices, though validators are called")
+            res.inst(tg.fq, f"all indices in {F} validated before the graph is built", "fail")
+            if not any(F in str(p[2]) for p in problems):
+                problems.append((tg, flat[build_pos][0], "a graph can be returned without the bond endpoints / attribute indices having been checked against the atoms of the formula: "
+                                 f"a string with a dangling index is accepted (or silently altered) instead of being rejected (no validation of {F})"))
+    for f, node, msg in problems:
+        res.fail(Finding("R-ORDERING", f.module.rel, f.qualname, norm(node), msg, line=getattr(node, "lineno", None)))
 
 
 # --------------------------------------------------------------------------- R-INDEXSPACE / R-GRAPHBUILD
